@@ -56,6 +56,15 @@ CHECKS = {
         note=COMMON_NOTE + " Names: an inner name may be dropped where the column was advanced; in the no-inner-mapping case the name is not constrained.",
         technique="TLA+ declarative map composition + TLC trace validation",
     ),
+    "C12": dict(
+        text="encode_mappings / decode_mappings are run on every mapping sequence of a small exhaustive domain, on big-value pairs per field, "
+             "on grammar strings spelled by the specification (redundant continuation digits, empty segments, backward columns) and on all "
+             "single-field deltas of the tier's bound; TLC compares with the v3 format as specified in Vlq.tla (decoder, digit emission) and "
+             "checks resolution equivalence, subsequence-of-input and re-encode stability; the line-only encoder is reached through "
+             "map(columns=false) of a one-child ConcatSource over a scripted child.",
+        note=COMMON_NOTE + " Values capped at 2^30 (the property's bound and TLC's 32-bit integers).",
+        technique="TLA+ specification of the v3 VLQ format + TLC trace validation, exhaustive small scopes",
+    ),
     "C13": dict(
         text="Pairs (flat, regrouped/wrapped) are executed; TLC compares text and per-position (per-line) attribution of the two recorded map() answers.",
         note=COMMON_NOTE + " One known finding (K2: empty insertion inside a chunk refines the original column).",
